@@ -28,27 +28,30 @@ CHECKS = {
     "C06": dict(cat="translation_validation", tech="Lean 4: verified closed-set check (invOK_sound) over the reachable configurations with consuming latches ⇒ no control-variable error on any path (no_ctl_error) + tablesOK",
                 text="Every stage output is checked by `ctlOK`; Scfg.C06.no_ctl_error proves that then no path of any length reads an unset or out-of-range "
                      "control variable (latches consume their variable), tables_sound gives the static table property.", ref="§7 C06"),
-    "C14": dict(cat="proof", tech="Lean 4: a-priori theorems about the model of the rewiring loop + exact-dump correspondence of the edit-primitive model with the code + Lean arc-specification decider on real before/after pairs",
+    "C14": dict(cat="proof", tech="Lean 4: a-priori theorems about the model of the rewiring loop, of whole insert_block calls (plain predecessors) and of join_returns + exact-dump correspondence of the edit-primitive model with the code + Lean arc-specification decider on real before/after pairs",
                 text="Scfg/Model/Edit.lean models insert_block, insert_block_and_control_blocks, join_returns, join_tails_and_exits, table maintenance and region renaming including abort sites; "
                      "Scfg.C14.rewire_frame/rewire_rerouted/rewire_new_once/rewire_id are proved for all target lists and all S; random edit histories on real SCFG objects are compared dump-for-dump with the model after every step, "
                      "and Scfg.Model.insertSpecOK/insertCtlSpecOK/joinReturnsSpecOK judge every completed real call.", ref="§7 C14",
                 note="Trusted: Lean kernel + the three standard axioms; the hand-written model corresponds to the code only as far as the random histories exercise it (thousands of steps per run, 0 mismatches required); "
-                     "lifting of the rewire theorems to whole insert_block calls is by the decider on real outputs, not yet an a-priori theorem."),
+                     "Scfg.C14.insertBlock_plain_spec lifts the rewire theorems to whole insert_block calls with any number of distinct plain predecessors (pointwise: new block with successors exactly S, each predecessor rewritten by rewire, every other entry unchanged), "
+                     "joinReturns_spec / joinReturns_one_exit prove that closing the graph leaves exactly one exit reached from every former exit and is the identity with at most one exit; for region or branching predecessors and for insert_block_and_control_blocks the lifting is by the decider on real outputs."),
     "C18": dict(cat="proof", tech="Lean 4: theorems requests_fresh / render_inj / names_fresh / fresh_vs_existing for any request sequence; prefix-table hypothesis evaluated on kinds regenerated from source; NameGenerator correspondence; clobber runs on the real pipeline",
                 text="Scfg.C18.requests_fresh proves by induction over arbitrary request sequences that no (kind, index) is handed out twice; render_inj/names_fresh lift this to the rendered strings for any kind table passing the decidable check prefixesOK, "
                      "which is evaluated on the (namespace, kind) table the translator extracts from /repo's source on every run; fresh_vs_existing covers names present before (what NameGenerator.reserve establishes). "
                      "The real NameGenerator is compared with the model on random request sequences, and the real pipeline is run on closed CFGs whose block names lie in the generator's namespace and across dict write/read round trips.", ref="§7 C18",
                 note="Trusted: Lean kernel + standard axioms; translator harness/translate.py (kinds it cannot resolve are reported as a broken tie); str(int) = Nat.repr on naturals (exercised). "
-                     "`reserve`'s regular-expression parsing is exercised by the clobber runs, not modelled in Lean. Reload between stages is currently blocked by to_dict raising TypeError on restructured graphs (see C15)."),
-    "C13": dict(cat="proof", tech="Lean 4: reference definitions with soundness/characterisation theorems; real queries compared with them and with the Lean model of each algorithm on all graphs of a small scope",
+                     "`reserve`'s regular-expression parsing is exercised by the clobber runs, not modelled in Lean. Reload histories: every stage prefix with a dict write/read in between, the outermost loops first (transformations.restructure_loop on the region) then write/read then the stages, and the whole pipeline, write/read, restructuring once more."),
+    "C13": dict(cat="proof", tech="Lean 4: a-priori correctness theorems for the models of _doms/_post_doms (doms_correct: table = path dominance, all graphs), is_reachable_dfs (reachDfs_spec), find_head, find_exiting_and_exits, find_headers_and_entries; verified validator for every real compute_scc answer (sccValid_sound); real queries compared with the models and with reference definitions on all graphs of a small scope",
                 text="Scfg/Spec/GraphDefs.lean defines reachability, SCCs, dominance, head, headers/entries, exiting/exits by closure / by definition; Scfg.C13.reachRef_sound, reachRef_complete_bounded, headRef_spec, findHead_eq_ref, exitingRef_spec relate them to path predicates. "
+                     "Props/C13Doms.lean proves for the work-list model of _find_dominators_internal (two loop invariants) that a returned table contains a at n iff every entry-to-n path passes a; C13Sub.lean proves the subset queries equal their membership specifications; C13Scc.lean proves what a true verdict of the SCC validator means (partition, mutual reachability inside, certified non-reachability across). "
                      "Every answer of the real find_head, compute_scc, find_headers_and_entries, find_exiting_and_exits, is_reachable_dfs, _doms, _post_doms, _imm_doms is compared with the definition and with the Lean model of the algorithm (Tarjan, dominator fix-point) on ALL directed graphs of the scope.", ref="§7 C13",
-                note="Trusted: Lean kernel + standard axioms. Per-instance (exhaustive small scope + random) for the comparison itself; completeness of the closure for paths longer than |level|+2 (no repeated node on a shortest path) and the specs of sccRef/domsRef w.r.t. inductive path predicates are not formalised — stated as _partial."),
+                note="Trusted: Lean kernel + standard axioms. The theorems are about the Lean models, tied to the code by exact comparison on ALL graphs of the scope plus random larger ones (0 mismatches required); Tarjan's algorithm and _imm_doms are not proved a priori: SCC answers are validated per instance by the verified validator, immediate dominators are compared with the definition immRef on top of the proved dominator tables. Theorems are up to the models' fuel (that it suffices is observed, not proved)."),
     "C16": dict(cat="proof", tech="Lean 4: model of both iterators compared order-exactly with the code; specification predicates with soundness theorems judged on every real enumeration",
                 text="Scfg/Model/Iter.lean models SCFG.__iter__ and region_view_iterator; for every (sub)graph at every depth, before and after every stage, the real enumerations are compared with the model and judged by iterSpecOK / viewSpecOK, whose meaning Scfg.C16.iterSpecOK_sound / viewSpecOK_sound prove.", ref="§7 C16",
                 note="Trusted: Lean kernel + standard axioms; exporter. The quantifier over graphs is by enumeration (as C01); an a-priori completeness theorem of the BFS under wf is not yet proved."),
     "C09": dict(cat="proof", tech="Lean 4: theorems about the block-cutting model for all streams and tables (contiguous, non-overlapping, gap-free); tables regenerated from source; model and interpreter-metadata specification compared with the real front end on a stdlib corpus under 3.12 and 3.11",
-                text="Scfg.C09.ranges_chain / ranges_cover / fromBytecode_nodup / blockRanges_strict prove, for every instruction stream and every opcode table, that the model of build_basicblocks cuts the stream into contiguous, non-overlapping, gap-free ranges. "
+                text="Scfg.C09.getInstructions_spec / getInstrs_sorted prove that the model of get_instructions returns exactly the known offsets of [begin, end), each once (compared with the real method for every block). "
+                     "Scfg.C09.ranges_chain / ranges_cover / fromBytecode_nodup / blockRanges_strict prove, for every instruction stream and every opcode table, that the model of build_basicblocks cuts the stream into contiguous, non-overlapping, gap-free ranges. "
                      "The opcode tables are regenerated from /repo on every run and passed to the model; real FlowInfo/build_basicblocks output is compared with the model exactly and with Lean specBlocks (leaders and successors from the interpreter's own opcode metadata) on ~1 900 functions per interpreter.", ref="§7 C09",
                 note="Trusted: Lean kernel + standard axioms; dis (is_jump_target, argval); the opcode truth-class rule; successor exactness and totality are per-function on the corpus, not an a-priori theorem."),
     "C11": dict(cat="proof", tech="Lean 4: theorem transform_refuses for all programs and any dispatcher data satisfying the decidable dispatchOK, evaluated on data regenerated from handle_ast_node/handle_function_def and the interpreter's ast classes; every unsupported class × position through the real AST2SCFG",
@@ -72,7 +75,7 @@ CHECKS = {
                 text="Scfg/Py/Micro.lean gives the supported subset (incl. and/or, comparison chains, call arguments, for/while/else, break/continue/return) a reference semantics whose abstract values are reaching definitions, so the state space is finite and Scfg.C08.pySim_sound turns one successful certificate check into equal event traces for ALL decision sequences. "
                      "For every generated function the real front end's CFG is abstracted and compared with the function this way; both are also executed natively by CPython (the CFG through a block-by-block interpreter) on every decision sequence up to depth 7, which also validates the Lean semantics; pruning is censused by statement identity. "
                      "Failing programs are classified semantically by variant semantics reproducing the known deviations (eager and/or hoisting, for-target preset). "
-                     "Scfg/Model/Ast2Cfg.lean is an executable model of the front end itself (handle_expression, handle_bool_op, if/while/for lowering, sealing, the three pruning passes); its blocks must equal the abstraction of the real ASTCFG block for block.", ref="§7 C08",
+                     "Scfg/Model/Ast2Cfg.lean is an executable model of the front end itself (handle_expression, handle_bool_op, if/while/for lowering, sealing, the three pruning passes); its blocks must equal the abstraction of the real ASTCFG block for block. Scfg.C08.front_end_prune_ok / pruneEmpty_distinct / pruneEmpty_closed prove a priori that the model of prune_empty never aborts, leaves no dangling successor and never makes the two targets of a branch coincide, under decidable hypotheses evaluated on every program's pre-pruning block list.", ref="§7 C08",
                 note="Trusted: Lean kernel + standard axioms; harness/pysem.py (abstraction of ast); the reaching-definition abstraction and the truthiness-memo policy (identical in the CPython oracle); atoms do not raise. "
                      "When the product exceeds 200 000 pairs the Lean verdict is 'inconclusive' and the bounded CPython comparison decides (counted in evidence)."),
     "C07": dict(cat="translation_validation", tech="Lean 4: verified simulation checker (pySim_sound) between the reference semantics of the original and of the regenerated function; CPython runs of both on every decision sequence up to a bound; exception class and compile check of the real pipeline",
